@@ -580,6 +580,10 @@ type node struct {
 	root      string
 	sub       string
 	nReplicas int
+	// staleReload is set while judging a restart or set_config that reloaded
+	// the table from a leases.json that differed from memory (reported when the
+	// difference arose).
+	staleReload bool
 }
 
 // diskConf is the part of the DHCP configuration that home writes to and reads
@@ -999,6 +1003,7 @@ func (n *node) afterReload(before, diskBefore []lease, diskErr error, live answe
 		// The disk differed from memory (already reported when it arose): the
 		// reload takes the disk's version.
 		c.Probe("restart_from_stale_disk")
+		n.staleReload = true
 	}
 	// Whatever the reload dropped has been reported (or is a listed finding):
 	// the reservations are now what came back.
@@ -1739,7 +1744,7 @@ func (n *node) step(i int, op Op) error {
 	if op.K == "par" {
 		return n.par(i, op)
 	}
-	n.opIdx, n.op, n.undelivered = i, op, false
+	n.opIdx, n.op, n.undelivered, n.staleReload = i, op, false, false
 	c := n.c
 	before, _, err := n.tableOf(n.srv)
 	if err != nil {
@@ -1914,7 +1919,9 @@ func (n *node) step(i int, op Op) error {
 		for _, a := range sortedAddrs(n.held) {
 			backed := false
 			for _, l := range tbl {
-				backed = backed || (l.IP == a && l.MAC == n.held[a].mac)
+				// (A reload from a stale leases.json can also roll an entry back
+				// to its state before the acknowledgement: that revokes it, too.)
+				backed = backed || (l.IP == a && l.MAC == n.held[a].mac && (!n.staleReload || l.active(time.Now())))
 			}
 			if !backed {
 				delete(n.held, a)
@@ -1993,5 +2000,5 @@ var Prop = &kernel.Property{
 	ProbeNames: []string{"offer", "ack", "nak", "silent", "dynamic_lease_acked", "static_lease_acked", "reply_to_reserved_client", "static_added", "static_added_outside_pool", "static_updated", "static_removed", "static_remove_hit_dynamic", "static_rejected",
 		"decline_reallocated", "release_removed_lease", "discover_new_client_free_address", "offer_recycled_entry", "expired_lease_in_table", "restart_with_leases", "shadow_restart_checked", "held_lease_revoked_by_admin_or_restart", "reservation_dropped_by_restart", "restart_from_stale_disk", "table_dup_seen", "table_invariant_broken_seen", "disk_differs_seen", "ops_after_taint",
 		"setconf_enabled", "setconf_disabled", "setconf_range_changed", "setconf_rejected", "setconf_start_stubbed", "setconf_with_leases", "message_while_disabled", "lease_outside_new_pool",
-		"sched_steps", "sched_switches", "sched_escapes", "par_interleaved", "par_serializable", "par_serial_orders_tried", "par_completion_order_not_serial_order", "par_neither_completion_nor_start_order", "leases_reset"},
+		"sched_steps", "sched_switches", "par_interleaved", "par_serializable", "par_serial_orders_tried", "par_completion_order_not_serial_order", "par_neither_completion_nor_start_order", "leases_reset"},
 }
